@@ -363,8 +363,9 @@ package keeper
 
 // session boundary: every waiting node that is still staked starts unstaking; nothing is paid out
 //@ func (Keeper).ReleaseWaitingValidators
-//@   props C24,C12
+//@   props C24,C22,C12
 //@   modifies all
+//@   logs releaseN == old(releaseN) + 1
 //@   ensures [no-coins-move] bankA2MN == old(bankA2MN) && bankSendN == old(bankSendN) && bankBurnN == old(bankBurnN) && burnN == old(burnN)
 //@   ensures [reported-set-untouched] prevSetN == old(prevSetN) && prevDelN == old(prevDelN)
 //@   loop 0 invariant bankA2MN == old(bankA2MN) && bankSendN == old(bankSendN) && bankBurnN == old(bankBurnN) && burnN == old(burnN)
@@ -614,6 +615,12 @@ package keeper
 //@   trusted the keys of the map as a sorted list of fresh 20-byte slices (Go map iteration + sort.SliceStable)
 //@   ensures len(result) >= 0
 
+//@ pure nBPS(c Iface) int
+//@ func (Keeper).BlocksPerSession
+//@   trusted parameter getter: a deterministic function of the context's state
+//@   pure_fn
+//@   ensures res == nBPS(ctx)
+//@ ghost releaseN int
 // The candidates are read from the staked-by-power index from the HIGHEST key down; at most
 // MaxValidators of them are counted; every candidate reported has its CURRENT non-zero power and
 // that same power is what the reported-set index remembers; every former member that is not
@@ -623,14 +630,17 @@ package keeper
 //@   props C22
 //@   modifies all
 //@   ensures [at-most-max] prevSetN - old(prevSetN) <= max(0, nMaxVals(ctx))
+//@   ensures [session-end-release-first] go_mod(ctxHeight(ctx), nBPS(ctx)) == 0 ==> releaseN == old(releaseN) + 1
 //@   ensures [members-then-leavers] 0 <= prevSetN - old(prevSetN) && prevSetN - old(prevSetN) <= len(updates) && prevDelN - old(prevDelN) == len(updates) - (prevSetN - old(prevSetN))
 //@   ensures [members-nonzero] forall i int :: 0 <= i && i < prevSetN - old(prevSetN) ==> updates[i].Power != 0
 //@   ensures [leavers-zero] ctxHeight(ctx) >= 45353 ==> (forall i int :: prevSetN - old(prevSetN) <= i && i < len(updates) ==> updates[i].Power == 0)
 //@   loop 0 invariant iterator != nil && 0 <= itPos[iterator] && itPos[iterator] <= itN[iterator]
+//@   loop 0 invariant go_mod(ctxHeight(ctx), nBPS(ctx)) == 0 ==> releaseN == old(releaseN) + 1
 //@   loop 0 invariant [highest-first] itRev[iterator] && itLo[iterator] == bytes(global(types.StakedValidatorsKey))
 //@   loop 0 invariant 0 <= count && count <= max(0, nMaxVals(ctx)) && len(updates) == prevSetN - old(prevSetN) && len(updates) <= count && prevDelN == old(prevDelN)
 //@   loop 0 invariant forall i int :: 0 <= i && i < len(updates) ==> updates[i].Power != 0
 //@   loop 0 invariant [remembered-power] len(updates) > 0 ==> updates[len(updates) - 1].Power == lastPrevSetPower
+//@   loop 1 invariant go_mod(ctxHeight(ctx), nBPS(ctx)) == 0 ==> releaseN == old(releaseN) + 1
 //@   loop 1 invariant prevSetN - old(prevSetN) <= max(0, nMaxVals(ctx))
 //@   loop 1 invariant 0 <= prevSetN - old(prevSetN)
 //@   loop 1 invariant prevSetN - old(prevSetN) <= len(updates)
@@ -649,7 +659,8 @@ package keeper
 // the signer also appears in the new state, except when the current output address hands the
 // node over to a new output address (after both non-custodial upgrades).
 //@ func (Keeper).ValidateValidatorStaking
-//@   props C14
+//@   props C14,C19
 //@   modifies all
+//@   ensures [only-unstaked-restake] result == nil && old(valHas[bytes(validatorNew.Address)]) && !(ctxAfterUpgrade(ctx) && old(valStatusG[bytes(validatorNew.Address)]) == 2) ==> old(valStatusG[bytes(validatorNew.Address)]) == 0
 //@   ensures [current-owner-signs] result == nil && old(valHas[bytes(validatorNew.Address)]) ==> unjailSigner(old(bytes(signerAddress)), old(bytes(validatorNew.Address)), old(valOutNil[bytes(validatorNew.Address)]), old(valOut[bytes(validatorNew.Address)]))
 //@   ensures [named-in-new-state-or-handover] result == nil ==> unjailSigner(old(bytes(signerAddress)), old(bytes(validatorNew.Address)), validatorNew.OutputAddress == nil, old(bytes(validatorNew.OutputAddress))) || (old(valHas[bytes(validatorNew.Address)]) && !old(valOutNil[bytes(validatorNew.Address)]) && addrEq(old(bytes(signerAddress)), old(valOut[bytes(validatorNew.Address)])) && validatorNew.OutputAddress != nil)
